@@ -11,7 +11,7 @@ import (
 // threads one after the other; every heap access is logged with thread, locks held and spawn
 // order. Natively the same harness runs the threads concurrently under the race detector (replay).
 
-//vp:property C09 C06
+//vp:property C09 C06 C16
 //vp:flag lockset
 //vp:bounds two websocket tunnels A and B on one Gateway: each does the full set-up (4 packets), one DATA packet and then ends by an out-of-order packet (error response) while its backend has sent one chunk and then either stays open or hangs up first (so the relay goroutine ends while the packet loop is still serving the client); idle timeout arbitrary (incl. negative); client writes may stall (the tunnel's other goroutines run while a packet is in flight); logical threads: handler A, handler B, relay goroutine of A, relay goroutine of B
 //vp:assume websocket/hijacked connections allow one concurrent writer (gorilla docs): the client transport's write log is the contended location; net.Conn, prometheus gauges and go-cache are safe for concurrent use
